@@ -8,7 +8,9 @@ import (
 	"flag"
 	"fmt"
 	"io"
+	"math"
 	"os"
+	"strconv"
 	"sync"
 	"sync/atomic"
 
@@ -94,6 +96,11 @@ func parseEditState(st tla.State) editCase {
 func histKind(h []tapex.Op) string {
 	k := "none"
 	for _, o := range h {
+		if o.Kind == "set" && o.SetK == "uint" {
+			if v, err := strconv.ParseUint(string(o.X.Bytes()), 10, 64); err == nil && v <= math.MaxInt64 {
+				abs.SetUintSeen.Store(true)
+			}
+		}
 		if o.Kind != "set" {
 			return "del"
 		}
